@@ -213,6 +213,10 @@ def check(ctx):
     # removing one trigger removes exactly that entry of the entity's reactors (shared with C06.b)
     n3 = core.adopt(ctx, c06, lambda o: o["rule"] == "C06.b" and "EntityReactors::remove" in o["key"], "C16.c")
     ctx.floor("C16.c", n3, 2, "shared EntityReactors::remove obligations (C06.b)")
+    # removing one kind of trigger leaves the reactor's other triggers registered: a table entry is deleted only when
+    # every list in it is empty (shared with C06.f)
+    n4 = core.adopt(ctx, c06, lambda o: o["rule"] == "C06.f", "C16.c")
+    ctx.notes.append("C16.c adopts %d entry-deletion obligations (C06.f)" % n4)
     # the entity reported and the entity whose data is read are the same accessor result
     for nm in ("get", "get_mut"):
         try:
